@@ -9,13 +9,13 @@ import json, hashlib
 FIELDS = ("op", "o", "o2", "v", "w", "ord", "ord2", "k", "r")
 DEFAULT = {"op": "nop", "o": "", "o2": "", "v": 0, "w": 0, "ord": "", "ord2": "", "k": "", "r": 0}
 
-ATOM_OPS = {"ld", "st", "rmw", "cas", "await", "wmut", "uld"}
+ATOM_OPS = {"ld", "st", "rmw", "cas", "await", "wmut", "uld", "aguard"}
 CELL_OPS = {"rd", "wr", "wrrd", "rdwr", "rdhold", "rdrel", "wrhold", "wrrel"}
 MTX_OPS = {"lock", "trylock", "unlock", "mset", "mget", "mgetmut", "minto"}
 RW_OPS = {"read", "write", "tryread", "trywrite", "unlockr", "unlockw", "rwset", "rwget", "rwgetmut", "rwinto"}
 CV_OPS = {"cvwait", "notify1", "notifyall"}
 NTF_OPS = {"nwait", "notify"}
-CHAN_OPS = {"send", "recv", "tryrecv", "droprx"}
+CHAN_OPS = {"send", "recv", "tryrecv", "droprx", "rxhold", "rxrel"}
 ARC_OPS = {"aclone", "adrop", "acount", "agetmut", "aunwrap", "aintoraw", "afromraw", "aptreq", "ahold", "adropheld"}
 TRK_OPS = {"tnew", "tdrop", "tforget"}
 TL_OPS = {"tlwith", "tlnest"}
